@@ -4,6 +4,7 @@ every conditional edge carries exactly one atomic condition and a polarity.
 Fails closed (AnalysisError) on statement kinds it does not know."""
 import ast
 from .pyir import AnalysisError
+from .inline import InlineBlock, InlineReturn
 
 CATCH_ALL = {'Exception', 'BaseException'}
 
@@ -33,6 +34,7 @@ class CFG(object):
         self._parents = ()
         self._loops = []      # (loop node id, break sink list)
         self._tries = []      # dict(handlers=[(node, names)], catch_all=bool, finalbody=None|list)
+        self._inlines = []    # (sink list, try depth) of the enclosing inlined helper bodies
         self.entry = self._new('entry', None)
         self.exit = self._new('exit', None)
         self.raise_exit = self._new('raise', None)
@@ -234,6 +236,28 @@ class CFG(object):
             return outs
         if isinstance(st, ast.Try):
             return self._try(st, ins)
+        if isinstance(st, InlineBlock):
+            # body of a private helper substituted for its call (sa/inline.py); InlineReturn jumps to its end
+            sink = []
+            self._inlines.append((sink, len(self._tries)))
+            self._push_parent(st)
+            outs = self._seq(st.body, ins)
+            self._pop_parent()
+            self._inlines.pop()
+            return outs + sink
+        if isinstance(st, InlineReturn):
+            n = self._new('stmt', st)
+            self._connect(ins, n.id)
+            if not self._inlines:
+                raise AnalysisError('inline return outside an inlined helper body')
+            sink, tdepth = self._inlines[-1]
+            outs = [(n.id, None)]
+            for level in range(len(self._tries) - 1, tdepth - 1, -1):
+                t = self._tries[level]
+                if t['finalbody']:
+                    outs = self._finally_copy(t, level, 'ret', outs)
+            sink.extend(outs)
+            return []
         raise AnalysisError('%s: statement kind %s not interpreted by the CFG builder'
                             % (self.func.qualname, type(st).__name__))
 
